@@ -477,8 +477,14 @@ class ServiceInfo(RecordUpdateListener):
         """
         new_records_futures = self._new_records_futures
         updated: bool = False
+        # The SRV record that names the host may follow the host's address records in
+        # the same response, and the cache does not hold them yet: addresses go last.
         for record_update in records:
-            updated |= self._process_record_threadsafe(zc, record_update.new, now)
+            if type(record_update.new) is not DNSAddress:
+                updated |= self._process_record_threadsafe(zc, record_update.new, now)
+        for record_update in records:
+            if type(record_update.new) is DNSAddress:
+                updated |= self._process_record_threadsafe(zc, record_update.new, now)
         if updated and new_records_futures:
             _resolve_all_futures_to_none(new_records_futures)
 
